@@ -124,9 +124,6 @@ Theorem C08_update_cache_exact_refuted :
 Proof. exact update_cache_exact_refuted. Qed.
 Print Assumptions C08_update_cache_exact_refuted.
 
-(* whether the file is rewritten does not depend on the workspace at all in the present code: the
-   characterisation of the defect used by the known-finding classifier *)
-
 (* ---------------------------------------------------------------- licence for the correspondence
    If the implementation agrees with the model on a recorded history (mismatch_C08 c = false), the
    soundness clause of the oracle holds on every cache file the implementation produced.  The other
@@ -140,37 +137,16 @@ Print Assumptions C08_model_holds.
 
 (* ---------------------------------------------------------------- non-vacuity *)
 (* the hypotheses of the transparency and exactness theorems are satisfiable by a non-trivial state: the
-   witness project (one job left, a cache file with two sound entries, one of them stale) *)
+   witness project (one job left, a cache file with two sound entries, one of them stale); it is an F9
+   state, i.e. exactly the side condition of the _partial theorem fails there *)
 Example C08_example_hypotheses :
-  exists f, Inv ex_fr f fresh /\ ws_intact ex_fr ex_ls ex_lb f /\ file_nodup f /\
-            listing f = [calc_id ex_fr ex_u1] /\
-            cache_file f = Some [(calc_id ex_fr ex_u0, ex_u0); (calc_id ex_fr ex_u1, ex_u1)] /\
-            f9_state f fresh = true.
-Proof.
-  destruct update_cache_exact_refuted as [f0 _].
-  destruct ex_f9_fs_val as [f [Ef [HL HC]]]. exists f.
-  destruct update_cache_exact_refuted as [g [H1 [H2 [H3 _]]]].
-  assert (Hid0 : calc_id ex_fr ex_u0 <> calc_id ex_fr ex_u1) by (vm_compute; discriminate).
-  split; [|split; [|split; [|split; [exact HL|split; [exact HC|]]]]].
-  - split; [apply sound_nil|]. intros c Hc. rewrite HC in Hc. inversion Hc; subst.
-    intros i v [H|[H|[]]]; inversion H; subst; reflexivity.
-  - intros i Hi. rewrite HL in Hi. destruct Hi as [<-|[]].
-    subst f. vm_compute. eexists _, _. repeat split; reflexivity.
-  - intros c Hc. rewrite HC in Hc. inversion Hc; subst. simpl.
-    constructor; [intros [H|[]]; auto|]. constructor; [intros []|constructor].
-  - subst f. vm_compute. reflexivity.
-Qed.
+  Inv ex_fr ex_f9_fs fresh /\ ws_intact ex_fr ex_ls ex_lb ex_f9_fs /\ file_nodup ex_f9_fs /\
+  listing ex_f9_fs = [calc_id ex_fr ex_u1] /\
+  cache_file ex_f9_fs = Some [(calc_id ex_fr ex_u0, ex_u0); (calc_id ex_fr ex_u1, ex_u1)] /\
+  f9_state ex_f9_fs fresh = true.
+Proof. exact ex_f9_hyps. Qed.
 
 (* collision freedom is satisfiable: on the witness every cached value equals the workspace value *)
 Example C08_example_coll_free :
   coll_free ex_fr ex_ls ex_f9_fs (map snd (s_cache fresh) ++ file_vals ex_f9_fs).
-Proof.
-  intros i w v Hi Hw Hv Hc.
-  assert (HL : listing ex_f9_fs = [calc_id ex_fr ex_u1]) by (vm_compute; reflexivity).
-  rewrite HL in Hi. destruct Hi as [<-|[]].
-  assert (Ew : wsv ex_ls ex_f9_fs (calc_id ex_fr ex_u1) = Some ex_u1) by (vm_compute; reflexivity).
-  rewrite Ew in Hw. inversion Hw; subst w.
-  assert (HV : map snd (s_cache fresh) ++ file_vals ex_f9_fs = [ex_u0; ex_u1]) by (vm_compute; reflexivity).
-  rewrite HV in Hv. destruct Hv as [<-|[<-|[]]]; [|reflexivity].
-  exfalso. revert Hc. vm_compute. discriminate.
-Qed.
+Proof. exact ex_coll_free. Qed.
